@@ -285,6 +285,8 @@ class Frame:
             self.env = merged
             return
         if isinstance(st, ast.For):
+            if _is_validation_loop(st):
+                return  # only raises: no value flows out of it
             if self.try_builder_loop(st):
                 return
             raise AnalysisError(
@@ -786,6 +788,21 @@ def _load(t):
         if hasattr(x, "ctx"):
             x.ctx = ast.Load()
     return n
+
+
+def _is_validation_loop(st):
+    """`for v in <iter>: if <cond>: raise ...` -- a loop that binds nothing but its own target and can only raise"""
+    def only_raises(stmts):
+        for q in stmts:
+            if isinstance(q, ast.Raise):
+                continue
+            if isinstance(q, ast.If) and only_raises(q.body) and only_raises(q.orelse):
+                continue
+            if isinstance(q, ast.Pass):
+                continue
+            return False
+        return True
+    return isinstance(st, ast.For) and not st.orelse and only_raises(st.body)
 
 
 def _is_warn(s):
